@@ -105,7 +105,14 @@ def make_state(ctx, path, old):
             pre.update(e0=e0, due0=due0)
         else:
             H[('f', addr.oid, 'expires')] = NONE
-            H[('f', addr.oid, 'expiry')] = NONE     # Inv(never): no pending call owned by the entry
+            # Inv(never): no *pending* call owned by the entry - either there never was one, or the one of an earlier timed
+            # mapping has been cancelled (Addr.update keeps the cancelled DelayedCall object in the field)
+            had = z3.Bool('had_a_timed_expiry_before')
+            ctx.input('had_a_timed_expiry_before', VBool(had))
+            call = VOpaque('DelayedCall', 6001)
+            H[('f', addr.oid, 'expiry')] = VUnion([(had, call), (z3.Not(had), NONE)])
+            r = ex.getattr_v(path, addr, '_expire')
+            H[('g', 'timers')] = ((0, (call, z3.Int('due_cancelled'), z3.BoolVal(False), r[0][1])),)
     return pre
 
 
